@@ -29,6 +29,7 @@ class is excluded exactly, by construction, and counted.
 """
 import itertools
 import os
+import re
 import sys
 
 sys.path.insert(0, os.path.dirname(os.path.dirname(os.path.abspath(__file__))))
@@ -312,6 +313,11 @@ def run_program(ranges, cts):
             src = build(ranges, cts, called)
             lm = runner.load_module(src)
         out, pkg = runner.compile_def(lm.mod.main)
+        if out.kind == "rejected" and not cts:
+            # only the fixed range helpers (accepted on the unchanged tree: int and nat run-time arguments, every
+            # form) and calls with literal arguments: a rejection means some valid use of range() no longer compiles
+            return None, None, ("violation", f"range.valid_program_rejected.{re.sub(r'[^A-Za-z0-9]+', '_', out.title or 'error')[:40]}",
+                                f"a program made only of the range helpers is rejected ({out.title}):\n{out.message[-1200:]}")
         if out.kind != "ok":
             return None, None, ("harness", f"main not accepted ({out.kind}): {out.message[-1500:]}\n{src}")
         v = runner.validate_pkg(pkg)
@@ -369,6 +375,8 @@ def replay(case):
         case = PROBES[case["probe"]]
     if case["kind"] == "range":
         vr, _vc, st = run_program([case], [])
+        if st != "ok" and st[0] == "violation":
+            return (st[1], st[2])
         if st != "ok":
             raise harness.HarnessError(st[1])
         r = vr[0]
@@ -508,6 +516,14 @@ def worker(ctx):
 
     def eval_program(ranges, cts, depth=0):
         vr, vc, st = run_program(ranges, cts)
+        if st != "ok" and st[0] == "harness" and cts and "main not accepted (rejected)" in st[1]:
+            # is it the range helpers alone?  (then it is a finding, not a harness problem)
+            _a, _b, st2 = run_program(ranges[:1], [])
+            if st2 != "ok" and st2[0] == "violation":
+                st = st2
+        if st != "ok" and st[0] == "violation":
+            ctx.violation(st[1], {"kind": "range", **ranges[0]} if ranges else {"kind": "helpers"}, st[2])
+            return
         if st != "ok":
             ctx.harness_error(st[1])
             return
